@@ -29,6 +29,10 @@ TEXTS += ["select v from variants\n", "select v from variants\n"]
 N_SOURCES = len(TEXTS)
 # 9/10: a user's own Source subclass that overrides fqn: one uri and type, two different sources
 VARIANT_SOURCES = {9: "a", 10: "b"}
+TEXTS += ["plain source text\nsecond line\n"]
+N_SOURCES = len(TEXTS)
+# 11: an instance of the plain Source base class (uri and type given by the caller, text in _raw)
+PLAIN_SOURCES = {11: ("Source", "plain://verif/11", "document")}
 _VARIANT_CLS: list = []
 
 
@@ -100,6 +104,10 @@ def fresh_source(i: int) -> Any:
     if i in SOURCE_DESCR:
         _, uri, typ = SOURCE_DESCR[i]
         return TextSource(uri, typ, _raw=TEXTS[i])
+    if i in PLAIN_SOURCES:
+        from pyoak.origin import Source
+
+        return Source(PLAIN_SOURCES[i][1], PLAIN_SOURCES[i][2], _raw=TEXTS[i])
     if i in VARIANT_SOURCES:
         return variant_source_class()("variants/x.sql", "sql", _raw=TEXTS[i], variant=VARIANT_SOURCES[i])
     if i in FILE_SOURCES:
@@ -230,6 +238,8 @@ def _canon_src_idx(i: int) -> tuple:
         return (FILE_SOURCES[i][0], _source_file(i).as_posix(), "File")
     if i in VARIANT_SOURCES:
         return ("VariantSource", "variants/x.sql", "sql", VARIANT_SOURCES[i])
+    if i in PLAIN_SOURCES:
+        return PLAIN_SOURCES[i]
     return ("MemoryTextSource", f"mem://verif/{i}", "<memory>")
 
 
